@@ -32,7 +32,7 @@ func genC11(rng *rand.Rand) c11Case {
 	}
 	c.JSONP = rng.IntN(5) == 0
 	c.Scenario = []string{"overlap-poll", "overlap-data", "pending-close", "abort-poll", "abort-data", "ack-order", "octet-v4", "mix", "mix", "mix"}[rng.IntN(10)]
-	c.Cause = closeCauses[rng.IntN(len(closeCauses))]
+	c.Cause = append(append([]string(nil), closeCauses...), "client-close-packet", "client-close-packet")[rng.IntN(len(closeCauses)+2)]
 	if c.Scenario == "mix" {
 		n := 4 + rng.IntN(16)
 		for i := 0; i < n; i++ {
@@ -176,6 +176,9 @@ func runC11(c c11Case, rng *rand.Rand, r *rep.Report) (key, msg string, stats ma
 				case "peer-disconnect":
 					aborted[lastReqID()] = true
 					x.Abort()
+				case "client-close-packet":
+					// the client itself ends the session with a close packet in a data request
+					cl.Post(refcodec.Packet{Type: refcodec.Close})
 				default:
 					if cause == "parse-error" {
 						cause = "close-true"
